@@ -7,6 +7,7 @@
 import Perp.Model.Integer
 import Perp.Lemmas.Basic
 import Perp.Lemmas.Digits
+import Perp.Spec.C19
 
 namespace Perp.Props.C19
 open Perp Perp.Integer
@@ -273,6 +274,123 @@ theorem fromStr_toStr (a : Integer) (h : Rep a) :
       · have : v = 0 := by simpa using hn
         subst this
         simp [beq_iff, toInt_newPositive, toInt_mk_true]
+
+/-! #### the observation-level specification holds of the model, for all operands -/
+
+open Perp.Spec.C19 in
+theorem checked_of (e : Except Err Integer) (z : Int)
+    (hok : ∀ r, e = .ok r → toInt r = z ∧ Rep r)
+    (herr : (∃ x, e = .error x) ↔ z.natAbs > U128.MAX) :
+    checked (optOf e) z = true := by
+  unfold checked fits
+  cases e with
+  | error x =>
+    have : z.natAbs > U128.MAX := herr.1 ⟨x, rfl⟩
+    have h2 : ¬ z.natAbs ≤ U128.MAX := by omega
+    simp [h2, optOf, Spec.C19.isNone]
+  | ok r =>
+    have h1 := hok r rfl
+    have : ¬ z.natAbs > U128.MAX := fun h => by
+      obtain ⟨x, hx⟩ := herr.2 h; cases hx
+    have h2 : z.natAbs ≤ U128.MAX := by omega
+    have h3 : r.value ≤ U128.MAX := h1.2
+    simp [h2, optOf, denotes, h1.1, h3]
+
+open Perp.Spec.C19 in
+theorem unchecked_of (e : Except Err Integer) (z : Int)
+    (hok : ∀ r, e = .ok r → toInt r = z ∧ Rep r)
+    (herr : (∃ x, e = .error x) → z.natAbs > U128.MAX) :
+    unchecked (optOf e) z = true := by
+  unfold unchecked fits
+  cases e with
+  | error x =>
+    have : z.natAbs > U128.MAX := herr ⟨x, rfl⟩
+    have h2 : ¬ z.natAbs ≤ U128.MAX := by omega
+    simp [h2]
+  | ok r =>
+    have h1 := hok r rfl
+    have h3 : r.value ≤ U128.MAX := h1.2
+    by_cases h2 : z.natAbs ≤ U128.MAX <;> simp [h2, optOf, denotes, h1.1, h3]
+
+theorem intToStr_eq (a : Integer) : Spec.C19.intToStr (toInt a) = toStr a := by
+  rcases a with ⟨v, n⟩
+  cases n
+  · simp [Spec.C19.intToStr, toInt_mk_false, toStr]
+  · by_cases hv : v = 0
+    · subst hv; simp [Spec.C19.intToStr, toInt_mk_true, toStr]
+    · simp [Spec.C19.intToStr, toInt_mk_true, toStr, hv]
+
+/-- **C19, observation form**: on every pair of representable operands and every operation of the
+    public API, the model's answer satisfies the specification predicate that the driver evaluates
+    on the implementation's answers. -/
+theorem spec_model (op : Spec.C19.Op) (a b : Integer) (ha : Rep a) (hb : Rep b) :
+    Spec.C19.ok op a b (Spec.C19.model op a b) = true := by
+  cases op <;> simp only [Spec.C19.ok, Spec.C19.model]
+  · exact checked_of _ _ (fun r h => ⟨(checkedAdd_ok a b r h).1, (checkedAdd_ok a b r h).2 ha hb⟩)
+      (checkedAdd_err_iff a b ha hb)
+  · exact checked_of _ _ (fun r h => ⟨(checkedSub_ok a b r h).1, (checkedSub_ok a b r h).2 ha hb⟩)
+      (checkedSub_err_iff a b ha hb)
+  · exact checked_of _ _ (fun r h => checkedMul_ok a b r h) (checkedMul_err_iff a b)
+  · by_cases hz : toInt b = 0
+    · obtain ⟨e, he⟩ := (checkedDiv_err_iff a b).2 hz
+      simp [hz, he, Spec.C19.optOf, Spec.C19.isNone]
+    · rcases except_cases (checkedDiv a b) with ⟨e, he⟩ | ⟨r, hr⟩
+      · exact absurd ((checkedDiv_err_iff a b).1 ⟨e, he⟩) hz
+      · have h1 := checkedDiv_ok a b r hr
+        have h3 : r.value ≤ U128.MAX := h1.2 ha
+        simp [hz, hr, Spec.C19.optOf, Spec.C19.denotes, h1.1, h3]
+  · exact unchecked_of _ _ (fun r h => ⟨(add_ok a b r h).1, (add_ok a b r h).2 ha hb⟩)
+      (add_err_iff a b ha hb).1
+  · refine unchecked_of _ _ (fun r h => ⟨(sub_ok a b r h).1, (sub_ok a b r h).2 ha hb⟩) ?_
+    intro h
+    have h1 := (add_err_iff a b.invertSign ha (invertSign_rep b hb)).1 h
+    rw [invertSign_toInt] at h1
+    have : toInt a - toInt b = toInt a + -toInt b := by omega
+    rw [this]; exact h1
+  · exact unchecked_of _ _ (fun r h => checkedMul_ok a b r h) (checkedMul_err_iff a b).1
+  · by_cases hz : toInt b = 0
+    · simp [hz]
+    · rcases except_cases (checkedDiv a b) with ⟨e, he⟩ | ⟨r, hr⟩
+      · exact absurd ((checkedDiv_err_iff a b).1 ⟨e, he⟩) hz
+      · have h1 := checkedDiv_ok a b r hr
+        have h3 : r.value ≤ U128.MAX := h1.2 ha
+        have hr' : Integer.div a b = .ok r := hr
+        simp [hz, hr', Spec.C19.optOf, Spec.C19.denotes, h1.1, h3]
+  · have h3 : (invertSign a).value ≤ U128.MAX := ha
+    simp [Spec.C19.denotes, invertSign_toInt, h3]
+  · have h3 : (abs a).value ≤ U128.MAX := ha
+    simp [Spec.C19.denotes, abs_toInt, h3]
+  · cases h : beq a b
+    · have : ¬ toInt a = toInt b := fun h' => by rw [(beq_iff a b).2 h'] at h; cases h
+      simp [this]
+    · simp [(beq_iff a b).1 h]
+  · cases h : cmp a b
+    · have := (cmp_lt_iff a b).1 h
+      simp [Int.compare_eq_lt.2 this] <;> exact (Int.compare_eq_lt.2 this).symm
+    · have := (cmp_eq_iff a b).1 h
+      simp [this]
+    · have := (cmp_gt_iff a b).1 h
+      simp [Int.compare_eq_gt.2 this] <;> exact (Int.compare_eq_gt.2 this).symm
+  · cases h : a.isZero
+    · have : ¬ toInt a = 0 := fun h' => by rw [(isZero_iff a).2 h'] at h; cases h
+      simp [this]
+    · simp [(isZero_iff a).1 h]
+  · cases h : a.isNegative
+    · have : ¬ toInt a < 0 := fun h' => by rw [(isNegative_iff a).2 h'] at h; cases h
+      simp [this]
+    · simp [(isNegative_iff a).1 h]
+  · cases h : a.isPositive
+    · have : ¬ 0 ≤ toInt a := fun h' => by rw [(isPositive_iff a).2 h'] at h; cases h
+      simp [this]
+    · simp [(isPositive_iff a).1 h]
+  · simp [intToStr_eq]
+  · obtain ⟨r, hr, hb'⟩ := fromStr_toStr a ha
+    have h1 := (beq_iff r a).1 hb'
+    have h3 : r.value ≤ U128.MAX := by
+      have := congrArg Int.natAbs h1
+      rw [toInt_natAbs, toInt_natAbs] at this
+      rw [this]; exact ha
+    simp [hr, Spec.C19.optOf, Spec.C19.denotes, h1, h3]
 
 /-! #### non-vacuity: the hypotheses are met by concrete, non-trivial operands -/
 
